@@ -18,7 +18,9 @@ static std::vector<Op> alphabet(const std::string &ka="a",const std::string &kb=
 // binary keys: both contain a NUL after a common first byte and have the SAME hash value (string_hash is the PJW hash: 'a'*16+0x10 == 'b'*16+0x00), so they share a
 // bucket at every table size and differ only after the NUL; keys are byte strings, not C strings
 static const std::string BKA("k\0a\x10",4), BKB("k\0b\0",4);
-static cb::Config config(const std::string &backend,unsigned limit,bool binary=false){ cb::Config c; c.backend=backend; c.limit=limit; c.ops= binary? alphabet(BKA,BKB):alphabet(); c.keys.push_back(binary?BKA:std::string("a")); c.keys.push_back(binary?BKB:std::string("b")); c.label=backend+"/limit="+std::to_string(limit)+(binary?"/binary-keys":""); c.shm=512*1024; return c; }
+// prefix keys: one NUL and two NULs - the first is a proper prefix of the second and both hash to 0 (same bucket at every table size)
+static const std::string PKA("\0",1), PKB("\0\0",2);
+static cb::Config config(const std::string &backend,unsigned limit,int binary=0){ cb::Config c; c.backend=backend; c.limit=limit; const std::string ka= binary==1?BKA: binary==2?PKA:std::string("a"), kb= binary==1?BKB: binary==2?PKB:std::string("b"); c.ops=alphabet(ka,kb); c.keys.push_back(ka); c.keys.push_back(kb); c.label=backend+"/limit="+std::to_string(limit)+(binary==1?"/binary-keys":binary==2?"/prefix-keys":""); c.shm=512*1024; return c; }
 
 // ---------------- cache_interface layer: triggers recorded while building are attached when stored ------------------
 // programs over {fetch_frame f, store_frame f (with own trigger), add_trigger x, open recorder, close recorder, rise x}
@@ -44,13 +46,13 @@ static void interface_pass(int maxlen){ cppcms::json::value cfg; cfg["service"][
 		if(d==maxlen) return; for(int op=0;op<NOPS;op++){ prog.push_back(op); rec(d+1); prog.pop_back(); } }; rec(0); }
 
 int main(int argc,char **argv){ vf::init(argc,argv,"C07","model_checking"); bool th=vf::thorough(); if(th&&!getenv("VERIF_BUDGET_S")) vf::C().budget_s=2700; /* BFS to fixpoint + 32^5 no-dedup sequences need more than the default 25 minutes */
-	std::vector<cb::Config> cfgs; const char *be[]={"thread_shared","process_shared"}; for(int b=0;b<2;b++) for(unsigned l=0;l<4;l++){ if(!th&&!(l==0||l==2)) continue; cfgs.push_back(config(be[b],l)); } for(int b=0;b<2;b++) cfgs.push_back(config(be[b],b?2:0,true)); /* keys with an embedded NUL and equal hash values */
+	std::vector<cb::Config> cfgs; const char *be[]={"thread_shared","process_shared"}; for(int b=0;b<2;b++) for(unsigned l=0;l<4;l++){ if(!th&&!(l==0||l==2)) continue; cfgs.push_back(config(be[b],l)); } for(int b=0;b<2;b++){ cfgs.push_back(config(be[b],b?2:0,1)); cfgs.push_back(config(be[b],b?0:2,2)); } /* keys with an embedded NUL and equal hash values; keys of which one is a proper prefix of the other (equal hash values too) */
 	if(!vf::C().replay_file.empty()){ std::ifstream f(vf::C().replay_file); std::stringstream ss; ss<<f.rdbuf(); std::string l=ss.str(); std::string label=vf::jfield(l,"config"); size_t p=l.find("\"history\":["); std::vector<int> h; if(p!=std::string::npos){ size_t e=l.find(']',p); h=vf::parse_choices(l.substr(p+11,e-p-11)); }
-		for(int bin=0;bin<2;bin++) for(unsigned lim=0;lim<4;lim++) for(int b=0;b<2;b++){ cb::Config c=config(be[b],lim,bin!=0); if(c.label!=label) continue; cb::RunResult r=cb::run_history(c,h,true); for(size_t i=0;i<r.trace.size();i++) printf("  %s\n",r.trace[i].c_str()); printf("replay: %s\n",r.ok?"history conforms":r.what.c_str()); if(!r.ok) vf::violation(c.label+":"+r.sig,r.what,"\"config\":"+vf::jstr(label)); } return vf::finish(); }
+		for(int bin=0;bin<3;bin++) for(unsigned lim=0;lim<4;lim++) for(int b=0;b<2;b++){ cb::Config c=config(be[b],lim,bin); if(c.label!=label) continue; cb::RunResult r=cb::run_history(c,h,true); for(size_t i=0;i<r.trace.size();i++) printf("  %s\n",r.trace[i].c_str()); printf("replay: %s\n",r.ok?"history conforms":r.what.c_str()); if(!r.ok) vf::violation(c.label+":"+r.sig,r.what,"\"config\":"+vf::jstr(label)); } return vf::finish(); }
 	if(vf::C().pass=="epoch2039"){ // the same exploration with the clock beyond 2^31 seconds (year 2039), two configurations, shallower
 		g_T0=(time_t)2200000000LL; std::vector<cb::Config> ec; ec.push_back(config("thread_shared",2)); ec.push_back(config("process_shared",0)); vf::parallel(ec.size(),2,[&](int i){ cb::Stats st; cb::bfs(ec[i],th?8:6,st,[&](){ return vf::deadline_reached(); }); vf::C().states+=st.states; vf::C().transitions+=st.transitions; vf::C().traces+=st.traces; vf::guard("epoch2039_states",st.states); },th?600:100); return vf::finish(); }
 	int depth=th?12:8, nd=th?5:4; double t_budget=vf::C().budget_s*0.6;
-	vf::C().rule="states = canonical forms of the reference model reached by replaying operation histories on the real cache; alphabet: 20 stores (2 keys x trigger sets {none,{t},{t,u},{other key}} x deadline {now+2, none}; 2 keys x deadline {now-1 with {u}, now}), fetch a/b, rise a/b/t/u, remove a/b, clear, tick 1/2, stats (32 operations); two more configurations use binary keys k\\0a\\x10 / k\\0b\\0 (embedded NUL, equal hash values: same bucket at every table size); every operation result (value, trigger set, deadline, generation relation, counts) and a destructive audit after every history are compared with a set-valued std::map model; distinct = distinct (configuration, canonical model state)";
+	vf::C().rule="states = canonical forms of the reference model reached by replaying operation histories on the real cache; alphabet: 20 stores (2 keys x trigger sets {none,{t},{t,u},{other key}} x deadline {now+2, none}; 2 keys x deadline {now-1 with {u}, now}), fetch a/b, rise a/b/t/u, remove a/b, clear, tick 1/2, stats (32 operations); two more configurations use prefix keys \\0 / \\0\\0 (one a proper prefix of the other, both hashing to 0) and two use binary keys k\\0a\\x10 / k\\0b\\0 (embedded NUL, equal hash values: same bucket at every table size); every operation result (value, trigger set, deadline, generation relation, counts) and a destructive audit after every history are compared with a set-valued std::map model; distinct = distinct (configuration, canonical model state)";
 	vf::assume("a sub-pass repeats the search for two configurations with the clock in 2039 (time_t beyond 2^31)"); vf::assume("virtual clock: time() is interposed; a hit exactly at now==deadline may go either way (set-valued model)"); vf::assume("process_shared objects are long-lived and reset by clear(), whose post-condition is checked on every use");
 	std::vector<cb::Stats> stats(cfgs.size());
 	vf::parallel(cfgs.size(),16,[&](int i){ cb::Stats st; cb::bfs(cfgs[i],depth,st,[&](){ return vf::elapsed()>t_budget; }); vf::C().states+=st.states; vf::C().transitions+=st.transitions; vf::C().traces+=st.traces; vf::guard(("bfs_depth_completed:"+cfgs[i].label).c_str(),st.depth_done); if(st.fixpoint) vf::guard(("bfs_fixpoint:"+cfgs[i].label).c_str()); },th?1400:110);
